@@ -23,10 +23,10 @@ enum Out {
 
 fn parse_resp(n: usize, input: &[u8]) -> Out {
     let r = match n {
-        0 => try_parse_response::<0>(input),
-        1 => try_parse_response::<1>(input),
-        4 => try_parse_response::<4>(input),
-        _ => try_parse_response::<128>(input),
+        0 => crate::engine::with_aliased(input, |i| try_parse_response::<0>(i)),
+        1 => crate::engine::with_aliased(input, |i| try_parse_response::<1>(i)),
+        4 => crate::engine::with_aliased(input, |i| try_parse_response::<4>(i)),
+        _ => crate::engine::with_aliased(input, |i| try_parse_response::<128>(i)),
     };
     match r {
         Ok(None) => Out::None,
@@ -37,10 +37,10 @@ fn parse_resp(n: usize, input: &[u8]) -> Out {
 
 fn parse_partial(n: usize, input: &[u8]) -> Out {
     let r = match n {
-        0 => try_parse_partial_response::<0>(input),
-        1 => try_parse_partial_response::<1>(input),
-        4 => try_parse_partial_response::<4>(input),
-        _ => try_parse_partial_response::<128>(input),
+        0 => crate::engine::with_aliased(input, |i| try_parse_partial_response::<0>(i)),
+        1 => crate::engine::with_aliased(input, |i| try_parse_partial_response::<1>(i)),
+        4 => crate::engine::with_aliased(input, |i| try_parse_partial_response::<4>(i)),
+        _ => crate::engine::with_aliased(input, |i| try_parse_partial_response::<128>(i)),
     };
     match r {
         Ok(None) => Out::None,
@@ -54,10 +54,10 @@ fn parse_partial(n: usize, input: &[u8]) -> Out {
 
 fn parse_req(n: usize, input: &[u8]) -> Out {
     let r = match n {
-        0 => try_parse_request::<0>(input),
-        1 => try_parse_request::<1>(input),
-        4 => try_parse_request::<4>(input),
-        _ => try_parse_request::<128>(input),
+        0 => crate::engine::with_aliased(input, |i| try_parse_request::<0>(i)),
+        1 => crate::engine::with_aliased(input, |i| try_parse_request::<1>(i)),
+        4 => crate::engine::with_aliased(input, |i| try_parse_request::<4>(i)),
+        _ => crate::engine::with_aliased(input, |i| try_parse_request::<128>(i)),
     };
     match r {
         Ok(None) => Out::None,
@@ -193,6 +193,77 @@ fn field_sets(n: usize, tier: Tier) -> Vec<Vec<Vec<u8>>> {
     out
 }
 
+
+/// Sequences of parser calls on one thread that could only matter if something were carried over from
+/// one call to the next (a memo keyed by the input's address and length, a cache shared by the
+/// monomorphic instances): every call is judged on its own input, as in the sweep.
+/// (1) the same complete head with the limits in DESCENDING order, and alternating between two heads;
+/// (2) inputs of EQUAL length and address but different content, one after the other: a prefix of
+///     head A to the complete parser, then the same-length prefix (or the whole) of head B to the
+///     partial and to the complete parser.
+fn call_sequences(rep: &mut Report) {
+    let mut fam: Vec<(Vec<u8>, usize)> = Vec::new();
+    for (sl, fields) in [
+        (&b"HTTP/1.1 200 OK"[..], vec![]),
+        (&b"HTTP/1.1 200 OK"[..], vec![&b"A: 1"[..]]),
+        (&b"HTTP/1.0 302 Found"[..], vec![&b"Location: /elsewhere"[..], &b"Content-Length: 0"[..]]),
+        (&b"HTTP/1.1 404 Not Found"[..], vec![&b"A: 1"[..], &b"b:3"[..], &b"C: \t 4 \t"[..], &b"Empty:"[..], &b"Set-Cookie: a=b"[..]]),
+        (&b"HTTP/1.1 100 Continue"[..], vec![]),
+        (&b"HTTP/1.1 301 Moved"[..], vec![&b"Location: /x"[..]]),
+        (&b"HTTP/1.1 204"[..], vec![&b"X-Bin: \x80\xfe"[..], &b"A: 2"[..]]),
+    ] {
+        fam.push((head(sl, &fields), fields.len()));
+    }
+    let mut cells = 0u64;
+    let mut fail = |rep: &mut Report, r: Option<(String, String)>, what: String| {
+        if let Some((key, w)) = r {
+            rep.violation(Violation { key: format!("{}:in-sequence", key), ord: 99_000_000, what: format!("{} [{}]", w, what), replay: json!({"kind": "sequences"}) });
+        }
+    };
+    // (1) descending limits, then two heads alternating
+    for (h, f) in &fam {
+        for k in ["response", "partial"] {
+            for n in [128usize, 4, 1, 0, 128, 0, 4] {
+                cells += 1;
+                let r = check_cell(k, n, h, *f, h.len(), b"");
+                fail(rep, r, format!("the same head offered with the limits 128, 4, 1, 0, 128, 0, 4 in this order; this call: {} parser, limit {}", k, n));
+            }
+        }
+    }
+    for (a, fa) in &fam {
+        for (b, fb) in &fam {
+            for n in [4usize, 1] {
+                for (h, f) in [(a, fa), (b, fb), (a, fa), (b, fb)] {
+                    cells += 1;
+                    let r = check_cell("response", n, h, *f, h.len(), b"");
+                    fail(rep, r, format!("two heads offered alternately to the complete parser with limit {}", n));
+                }
+            }
+        }
+    }
+    // (2) equal length, different content
+    for (a, fa) in &fam {
+        for (b, fb) in &fam {
+            if a == b {
+                continue;
+            }
+            for l in 1..=b.len().min(a.len() - 1) {
+                for n in [128usize, 1] {
+                    cells += 3;
+                    let r = check_cell("response", n, a, *fa, l, b"");
+                    fail(rep, r, format!("{}-byte prefix of head A to the complete parser (limit {})", l, n));
+                    let r = check_cell("partial", n, b, *fb, l, b"");
+                    fail(rep, r, format!("after a {}-byte prefix of another head went to the complete parser: the first {} bytes of this head to the partial parser (limit {}), same buffer", l, l, n));
+                    let r = check_cell("response", n, b, *fb, l, b"");
+                    fail(rep, r, format!("after a {}-byte prefix of another head: the first {} bytes of this head to the complete parser (limit {}), same buffer", l, l, n));
+                }
+            }
+        }
+    }
+    rep.evaluations += cells;
+    rep.extra("sequence_cells", json!(cells));
+}
+
 pub fn run(tier: Tier) -> Report {
     let lr = long_reason();
     let mut starts: Vec<(&str, Vec<u8>)> = Vec::new();
@@ -282,11 +353,17 @@ pub fn run(tier: Tier) -> Report {
         rep.merge(p);
     }
     rep.guard("some head exceeds its limit", false);
+    call_sequences(&mut rep);
     rep.extra("heads", json!(jobs.len()));
     rep
 }
 
 pub fn replay(v: &Value) -> Result<Option<String>, String> {
+    if v["kind"].as_str() == Some("sequences") {
+        let mut r = Report::new();
+        call_sequences(&mut r);
+        return Ok(r.violations.into_iter().next().map(|(k, (_, v))| format!("[{}] {}", k, v.what)));
+    }
     let h = unhex(v["head"].as_str().ok_or("head")?);
     let tail = unhex(v["tail"].as_str().unwrap_or(""));
     Ok(check_cell(
